@@ -1,3 +1,3 @@
-CONSTANT Offsets = "all" Shapes = {"small", "nested", "pixel"}
+CONSTANT Offsets = "all" Shapes = {"small", "nested", "pixel", "encaps"}
 SPECIFICATION Spec
 CHECK_DEADLOCK FALSE
